@@ -32,10 +32,38 @@ class ExtendedEncoder(json.JSONEncoder):
                         "message": "log.msg() was given an object that could not be encoded into JSON, and when I tried to repr() it I got an error too. That exception wasn't repr()able either. I give up. Good luck.",
                         }
 
+def _make_jsonable(o, _seen=()):
+    # json.dumps() does not consult default= for dict keys it cannot
+    # represent (tuples, bytes, ..), nor for containers that contain
+    # themselves: replace those, leave everything else to ExtendedEncoder
+    if isinstance(o, (dict, list, tuple)):
+        if id(o) in _seen:
+            return {"@": "UnJSONable",
+                    "message": "log.msg() was given a container that contains itself",
+                    }
+        _seen = _seen + (id(o),)
+        if isinstance(o, dict):
+            out = {}
+            for k,v in list(o.items()):
+                if not isinstance(k, (str, int, float, bool, type(None))):
+                    try:
+                        k = repr(k)
+                    except Exception:
+                        k = "<unreprable key>"
+                out[k] = _make_jsonable(v, _seen)
+            return out
+        return [_make_jsonable(v, _seen) for v in o]
+    return o
+
 def serialize_to_json_utf8(f, obj):
     # py2 json.dumps(ensure_ascii=True) always returns bytes (of ascii)
     # py3 json.dumps always returns str
-    s = json.dumps(obj, cls=ExtendedEncoder)
+    try:
+        s = json.dumps(obj, cls=ExtendedEncoder)
+    except (TypeError, ValueError):
+        # one unrepresentable event must not prevent the rest of the file
+        # (e.g. an incident report) from being written
+        s = json.dumps(_make_jsonable(obj), cls=ExtendedEncoder)
     f.write(six.ensure_binary(s))
 
 def serialize_raw_header(f, header):
